@@ -437,3 +437,9 @@ package aggregator
 //@   ensures[usable; C14] result1 == nil ==> result0 != nil && result0.Interval > 0 && result0.Matcher.Regex != ""
 //@   ensures[as_configured; C20] result1 == nil ==> result0.Fun == fun && result0.OutFmt == outFmt && result0.Cache == cache && result0.Interval == interval && result0.Wait == wait && result0.DropRaw == dropRaw && result0.out == out
 //@        && result0.Matcher.Prefix == matcher.Prefix && result0.Matcher.NotPrefix == matcher.NotPrefix && result0.Matcher.Sub == matcher.Sub && result0.Matcher.NotSub == matcher.NotSub && result0.Matcher.Regex == matcher.Regex && result0.Matcher.NotRegex == matcher.NotRegex
+
+// ---------------------------------------------------------------- goroutine confinement of the buckets (C10)
+// The bucket map and the list of open bucket starts belong to the aggregator's own goroutine (run and what it calls);
+// AddMaybe and Snapshot only send to it. The sequential contracts of AddOrCreate / Flush / run rest on this.
+//@ confined Aggregator.aggregations: NewMocked, Aggregator.run, Aggregator.AddOrCreate, Aggregator.Flush ; C10
+//@ confined Aggregator.tsList: NewMocked, Aggregator.run, Aggregator.AddOrCreate, Aggregator.Flush ; C10
